@@ -956,6 +956,8 @@ def run(chk):   # noqa
     _supervisor_rule(chk, prog)
     _threadflag_rule(chk, prog)
     _withdraw_rule(chk, prog)
+    _awaitreg_rule(chk, prog)
+    _packflags_rule(chk, prog)
 
 
 def _sweepreset_rule(chk, prog):
@@ -1109,3 +1111,77 @@ def _withdraw_rule(chk, prog):
                           "`%s` registers this thread's VM in the channel, and no function selects pending entries by their fiber or thread in order to remove "
                           "them (only %s pop the queues, on the opposite operation): once the waiter has given up and its thread has exited, the next give / take posts to a VM that "
                           "no longer exists" % (x.text()[:40], ", ".join(sorted(set(f.name for f in removers)))))
+
+
+def _awaitreg_rule(chk, prog):
+    """janet_channel_push / janet_channel_pop register the running fiber in the channel (mode 0, or 1 for select) when
+    the operation has to wait, and the caller then suspends with janet_await; the next give / take wakes it.  Mode 2 -
+    the public janet_channel_give / janet_channel_take used by event-loop callbacks - reports `would block` WITHOUT
+    registering anybody.  A function that suspends after a mode-2 call sleeps with nobody holding a reference to it."""
+    rule = "C08-AWAITREG"
+    chk.rule(rule, "a function that suspends with janet_await uses only the registering modes of the channel operations, never janet_channel_give / janet_channel_take (mode 2)")
+    n = 0
+    for fn in prog.all_funcs():
+        if not fn.calls("janet_await"):
+            continue
+        ops = fn.calls("janet_channel_push", "janet_channel_pop", "janet_channel_push_with_lock", "janet_channel_pop_with_lock",
+                       "janet_channel_give", "janet_channel_take")
+        if not ops:
+            continue
+        chk.analysed(fn)
+        for c in ops:
+            n += 1
+            chk.instance(rule)
+            mode = strip_casts(c.args[2]) if len(c.args) == 3 else None
+            if c.callee in ("janet_channel_give", "janet_channel_take") or (mode is not None and mode.k == "int" and mode.v == 2):
+                chk.violation(rule, fn.tu.name, fn.name, "nonregistering:" + c.callee, c.loc,
+                              "%s suspends with janet_await but calls `%s`, the never-block variant that returns `would block` without "
+                              "queueing a JanetChannelPending entry: the fiber (and for a thread channel its whole thread) is never woken" % (
+                                  fn.name, c.text()[:60]))
+            else:
+                chk.ok(rule, "%s: `%s` registers the fiber before it suspends" % (fn.name, c.text()[:50]))
+    chk.floor(rule, 4, n)
+
+
+def _packflags_rule(chk, prog):
+    """A thread-channel message is an arbitrary value: it may contain cycles and the same mutable object in several
+    places.  janet_chan_pack therefore marshals with the seen-table on (no JANET_MARSHAL_NO_CYCLES), and pack and
+    unpack pass the same flags so that what one writes the other accepts."""
+    rule = "C08-PACKFLAGS"
+    chk.rule(rule, "janet_chan_pack and janet_chan_unpack marshal / unmarshal with the same flags, and without JANET_MARSHAL_NO_CYCLES")
+    tu = prog.tus["ev.c"]
+    byname = {f.name: f for f in tu.funcs.values()}
+    pack, unpack = byname.get("janet_chan_pack"), byname.get("janet_chan_unpack")
+    if pack is None or unpack is None:
+        raise AnalysisBroken("janet_chan_pack / janet_chan_unpack not found")
+    def flags(fn, callee, idx):
+        out = []
+        for c in fn.calls(callee):
+            a = c.args[idx]
+            if strip_casts(a).k == "ref":       # flags kept in a local: read its initialiser
+                for d in fn.nodes:
+                    if d.k == "vardecl" and d.name == strip_casts(a).name and d.kids:
+                        a = d.kids[0]
+            # JANET_MARSHAL_DECREF only tells the reader to drop the references a discarded message carries
+            names = sorted(set(m for y in a.walk() for m in y.macro_names() if m.startswith("JANET_MARSHAL_")) - {"JANET_MARSHAL_DECREF"})
+            out.append((c, names, a))
+        return out
+    w = flags(pack, "janet_marshal", 3)
+    r = flags(unpack, "janet_unmarshal", 2)
+    if not w or not r:
+        raise AnalysisBroken("janet_chan_pack / janet_chan_unpack: marshal call not found")
+    chk.analysed(pack)
+    chk.analysed(unpack)
+    rflags = r[0][1]
+    for (c, names, a) in w:
+        chk.instance(rule)
+        if "JANET_MARSHAL_NO_CYCLES" in names:
+            chk.violation(rule, "ev.c", "janet_chan_pack", "no-cycles", c.loc,
+                          "`%s` packs a message with JANET_MARSHAL_NO_CYCLES: a value that reaches itself can no longer be sent (the "
+                          "marshaller recurses to its depth limit) and an object that occurs twice in one message arrives as two copies" % c.text()[:70])
+        elif names != rflags:
+            chk.violation(rule, "ev.c", "janet_chan_pack", "flag-mismatch", c.loc,
+                          "janet_chan_pack marshals with %s but janet_chan_unpack unmarshals with %s" % (names, rflags))
+        else:
+            chk.ok(rule, "pack and unpack both use %s" % names)
+    chk.floor(rule, 1, len(w))
